@@ -177,6 +177,10 @@ class HexFile:
                     address -= 0x10000
                 self.write_hex_line(HexLine(address, DATA, chunk))
                 address += len(chunk)
+        if self.start_address:
+            self.write_hex_line(
+                HexLine(0, STARTADDR, struct.pack(">I", self.start_address))
+            )
         self.write_hex_line(HexLine(0, EOF))
 
 
